@@ -18,6 +18,7 @@ type Gen struct {
 	Budget int  // remaining node budget; when exhausted everything is generated minimally
 	Big    bool // allow sizes in the 16K region (thorough tier)
 	NoExt  bool // never leave the root of an extensible constraint
+	ExtBig bool // sizes in the extension range are frequent and reach the 16K fragmentation step (hostile-but-legal seeds)
 	// Stats
 	OpenAlts []string // names of the open-type alternatives chosen (type.field)
 	Features map[string]int
@@ -240,6 +241,13 @@ func (g *Gen) size(p per.Params, unit string) int {
 		capTo = 4
 	}
 	if ub >= 0 {
+		if p.SizeExt && !g.NoExt && g.ExtBig && unit != "elem" && r.Intn(2) == 0 {
+			g.feat("size-extension-big-" + unit)
+			if unit == "bit" {
+				return pick(r, int(ub)+1, int(ub)+8, 1000, 16383, 16384, 16385, 16392, 20000, 32768)
+			}
+			return pick(r, int(ub)+1, int(ub)+2, 255, 256, 257, 1000, 2000, 3500)
+		}
 		if p.SizeExt && !g.NoExt && r.Intn(6) == 0 && unit != "elem" {
 			g.feat("size-extension-" + unit)
 			// only sizes above the root: a size below the root's lower bound is not a value any later protocol
